@@ -96,44 +96,41 @@ impl FromStr for Imm {
         let s = s.to_lowercase();
         let s = s.as_str();
         let s = s.trim();
-        let (s, mul) = if let Some(stripped) = s.strip_prefix('-') {
-            (stripped, -1)
+        let (s, negative) = if let Some(stripped) = s.strip_prefix('-') {
+            (stripped, true)
         } else {
-            (s, 1)
+            (s, false)
         };
 
         if s == "zero" {
-            Ok(Imm(0))
-        } else if let Some(stripped) = s.strip_prefix("0x") {
-            if stripped.starts_with('-') {
-                Err(())
-            } else {
-                match u32::from_str_radix(stripped, 16) {
-                    #[allow(clippy::cast_possible_wrap)]
-                    Ok(i) => Ok(Imm(mul * i as i32)),
-                    Err(_) => Err(()),
-                }
-            }
-        } else if let Some(stripped) = s.strip_prefix("0b") {
-            if stripped.starts_with('-') {
-                Err(())
-            } else {
-                match u32::from_str_radix(stripped, 2) {
-                    #[allow(clippy::cast_possible_wrap)]
-                    Ok(i) => Ok(Imm(mul * i as i32)),
-                    Err(_) => Err(()),
-                }
-            }
-        } else {
-            if s.starts_with('-') {
-                return Err(());
-            }
-            match s.parse::<i32>() {
-                Ok(i) => Ok(Imm(mul * i)),
-                Err(_) => Err(()),
-            }
+            return Ok(Imm(0));
         }
+
+        let magnitude = if let Some(stripped) = s.strip_prefix("0x") {
+            parse_digits(stripped, 16)?
+        } else if let Some(stripped) = s.strip_prefix("0b") {
+            parse_digits(stripped, 2)?
+        } else {
+            parse_digits(s, 10)?
+        };
+        let value = if negative { -magnitude } else { magnitude };
+
+        // An immediate denotes a 32-bit word: every notation accepts the
+        // signed and the unsigned reading of the word, and nothing else.
+        if value < i64::from(i32::MIN) || value > i64::from(u32::MAX) {
+            return Err(());
+        }
+        #[allow(clippy::cast_possible_truncation)]
+        Ok(Imm(value as i32))
     }
+}
+
+/// Parse an unsigned run of digits (no sign, no spaces) in the given radix.
+fn parse_digits(digits: &str, radix: u32) -> Result<i64, ()> {
+    if digits.is_empty() || !digits.chars().all(|c| c.is_digit(radix)) {
+        return Err(());
+    }
+    i64::from_str_radix(digits, radix).map_err(|_| ())
 }
 
 impl From<Imm> for CsrImm {
